@@ -102,6 +102,12 @@ def make_shape(rnd, tmp, k, focus=False):
                         for nm in ('merchant_categories.csv', 'merchant_categories.csv.bak'):
                             os.utime(os.path.join(cfg, nm), (1700000000, 1700000000))
                         shape['bak_lookalike'] = True
+        if shape.get('bak') and not shape.get('bak_lookalike') and rnd.random() < .3:
+            # migrated back and forth many times: numbered backups up to .bak.10 (or .bak.11), each with its own content
+            for i in range(1, rnd.choice([10, 11, 12])):
+                with open(os.path.join(cfg, 'merchant_categories.csv.bak.%d' % i), 'w') as f:
+                    f.write('Pattern,Merchant,Category,Subcategory\nOLD%d,Backup number %d,Old,Rules\n' % (i, i))
+            shape['many_baks'] = True
         if rnd.random() < .25 and not focus:
             with open(os.path.join(cfg, 'merchants.rules'), 'w') as f:
                 f.write(rnd.choice(['# my own unreferenced rules\n[Mine]\nmatch: contains("MINE")\ncategory: Mine\n',
